@@ -408,7 +408,8 @@ class Tensor:
                 #print(node.grad_fn)
                 node.grad_fn()
             if node is not self and not node.is_leaf and not node._retain_grad and not retain_grads__:
-                del node._grad
+                # a single store: deleting the attribute first leaves the tensor without
+                # _grad (unusable for any later call) if the sweep is interrupted in between
                 node._grad = None
         
     def zero_(self):
